@@ -59,6 +59,20 @@ def find_args_open(s):
     return last
 
 
+def split_assign(t):
+    """index of the ' = ' separating destination place and right-hand side: the first one outside parentheses
+    (a projected place carries its type in parentheses, and types may contain `Output = ...`)"""
+    depth = 0; i = 0; n = len(t)
+    while i < n:
+        ch = t[i]
+        if ch == '(' : depth += 1
+        elif ch == ')': depth -= 1
+        elif ch == '"': return t.find(' = ') if depth == 0 else None
+        elif depth == 0 and t.startswith(' = ', i): return i
+        i += 1
+    return None
+
+
 def find_top_colon(s):
     depth = 0; n = len(s); i = 0
     while i < n:
@@ -310,9 +324,9 @@ def parse_stmt(s):
     if s.startswith('Deinit('): return None
     m = re.match(r'discriminant\((.+?)\) = (\d+);$', s, flags=re.S)
     if m: return ('setdiscr', parse_place(m.group(1)), int(m.group(2)))
-    m = re.match(r'(.+?) = (.+);$', s, flags=re.S)
-    if not m: raise Unmodelled('statement syntax: ' + s)
-    return ('assign', parse_place(m.group(1)), parse_rvalue(m.group(2)), s)
+    k = split_assign(s)
+    if k is None or not s.endswith(';'): raise Unmodelled('statement syntax: ' + s)
+    return ('assign', parse_place(s[:k]), parse_rvalue(s[k + 3:-1]), s)
 
 
 def parse_term(t):
@@ -340,12 +354,13 @@ def parse_term(t):
     m = re.match(r'falseUnwind -> \[real: (bb\d+),', t)
     if m: return ('goto', m.group(1))
     # calls:  DEST = CALLEE(ARGS) -> [return: bbN, unwind ...];   or diverging:  DEST = CALLEE(ARGS) -> unwind continue;
-    m = re.match(r'(.+?) = (.+\)) -> (?:\[return: (bb\d+),.*\]|(bb\d+)|unwind.*|\[unwind.*\]);$', t, flags=re.S)
+    k = split_assign(t)
+    m = re.match(r'(.+\)) -> (?:\[return: (bb\d+),.*\]|(bb\d+)|unwind.*|\[unwind.*\]);$', t[k + 3:], flags=re.S) if k is not None else None
     if m:
-        callexpr = m.group(2); i = find_args_open(callexpr)
+        callexpr = m.group(1); i = find_args_open(callexpr)
         callee = callexpr[:i].strip()
         args = [parse_operand(a) for a in scan_split(callexpr[i + 1:-1])]
-        return ('call', parse_place(m.group(1)), callee, args, m.group(3) or m.group(4))
+        return ('call', parse_place(t[:k]), callee, args, m.group(2) or m.group(3))
     raise Unmodelled('terminator syntax: ' + t)
 
 
